@@ -552,13 +552,24 @@ Definition clause_faithful (c : case) : bool :=
   forallb (faithful (c_orc c)) (combine (probe_ops c) (c_before c))
   && forallb (faithful (c_orc c)) (combine (probe_ops c) (c_after c)).
 
+(* ... and at every moment of the history, not only in the two snapshots: whatever was pushed,
+   committed or mounted under a digest in the meantime (nothing, a truncated copy, something
+   else), a read by digest that succeeds - the user's own through the mechanism, any goroutine's,
+   in immutable-tags mode also the ones of the setup - hands out bytes of that digest *)
+Definition history_events (c : case) : list ev :=
+  (match c_mech c with MImmTags => combine (c_setup c) (c_setup_obs c) | _ => [] end)
+  ++ combine (c_ops c) (c_obs c) ++ concat (c_threads c).
+
+Definition clause_reads (c : case) : bool := forallb (faithful (c_orc c)) (history_events c).
+
 Definition obs_ok (c : case) : bool :=
   match c_mech c with
   | MReadOnly => clause_readonly c
   | MImmutable => clause_tags c && deletes_denied (c_ops c) (c_obs c) && clause_keep c
                   && traced_all (fun o => negb (is_delete_op o)) c && clause_faithful c
                   && forallb (push_digest_ok (hash14 (c_orc c))) (combine (c_ops c) (c_obs c))
-  | MImmTags => clause_tags c && clause_keep c && clause_closed c && clause_faithful c
+                  && clause_reads c
+  | MImmTags => clause_tags c && clause_keep c && clause_closed c && clause_faithful c && clause_reads c
   end.
 
 (* ---- non-trivial: the case attempts the change the mechanism must prevent ---- *)
@@ -590,6 +601,10 @@ Definition nontrivial (c : case) : bool :=
                      | Some (r, d) =>
                          existsb (fun o => match o with
                                            | DeleteBlob r' d' | DeleteManifest r' d' => beqb r r' && beqb d d'
+                                           (* something is pushed, mounted or committed under that digest *)
+                                           | PushBlob r' de _ => beqb r r' && beqb d (d_digest de)
+                                           | MountBlob _ r' d' => beqb r r' && beqb d d'
+                                           | WCommit _ d' => beqb d d'
                                            | _ => false end)
                                  (c_ops c ++ map fst (concat (c_threads c)))
                      | None => false
@@ -2041,10 +2056,59 @@ Proof.
     rewrite (proj1 (inv_iman _ _ _ _ _ _ _ HI E)). now rewrite beqb_refl.
 Qed.
 
+(* one answer of the registry in a state that meets the invariant *)
+Lemma faithful_one o imm st op ob :
+  Inv (hash14 o) (orc_img o) (orc_idx o) st ->
+  agrees ob (snd (mem14 o imm st op)) = true -> faithful o (op, ob) = true.
+Proof.
+  intros HI Ha. unfold mem14 in Ha. destruct op; try reflexivity; cbn [faithful];
+    destruct ob as [[]| | | |]; try reflexivity.
+  - rewrite get_blob_res in Ha. destruct (iblob st r d) as [bl|] eqn:E; [|discriminate].
+    apply agrees_obs_ok in Ha. injection Ha as <- <-. cbn [blob_desc d_digest].
+    rewrite (inv_iblob _ _ _ _ _ _ _ HI E). now rewrite beqb_refl.
+  - rewrite get_manifest_res in Ha. destruct (iman st r d) as [bl|] eqn:E; [|discriminate].
+    apply agrees_obs_ok in Ha. injection Ha as <- <-. cbn [blob_desc d_digest].
+    rewrite (proj1 (inv_iman _ _ _ _ _ _ _ HI E)). now rewrite beqb_refl.
+Qed.
+
+(* every answer along a run: of any step function whose states carry a registry state that keeps
+   meeting the invariant, and whose reads are that registry's answers in the state the call met *)
+Lemma faithful_run_gen o imm {St} (stp : registry St) (proj : St -> state) :
+  (forall s op, Inv (hash14 o) (orc_img o) (orc_idx o) (proj s) ->
+                Inv (hash14 o) (orc_img o) (orc_idx o) (proj (fst (stp s op)))) ->
+  (forall s op, is_read_op op = true -> snd (stp s op) = snd (mem14 o imm (proj s) op)) ->
+  forall h s obs, Inv (hash14 o) (orc_img o) (orc_idx o) (proj s) ->
+    agrees_all obs (snd (run stp s h)) = true ->
+    forallb (faithful o) (combine h obs) = true.
+Proof.
+  intros Hstep Hread. induction h as [|a h IH]; intros s obs HI Hag; [reflexivity|].
+  cbn [run] in Hag. pose proof (Hstep s a HI) as HI'. pose proof (Hread s a) as Hr.
+  destruct (stp s a) as [s1 r]. cbn [fst snd] in *.
+  destruct (run stp s1 h) as [s2 rs] eqn:E. cbn [snd] in Hag.
+  destruct obs as [|ob obs]; [discriminate|]. cbn [agrees_all] in Hag.
+  apply andb_true_iff in Hag as [Ha Hag]. cbn [combine forallb].
+  apply andb_true_iff. split.
+  - destruct (is_read_op a) eqn:Er.
+    + rewrite (Hr eq_refl) in Ha. now apply (faithful_one o imm (proj s)).
+    + destruct a; try reflexivity; discriminate Er.
+  - apply (IH s1); [exact HI'|]. now rewrite E.
+Qed.
+
+Lemma faithful_run o imm h st obs :
+  Inv (hash14 o) (orc_img o) (orc_idx o) st ->
+  agrees_all obs (snd (run (mem14 o imm) st h)) = true ->
+  forallb (faithful o) (combine h obs) = true.
+Proof.
+  apply (faithful_run_gen o imm (mem14 o imm) (fun s => s)).
+  - intros s op HI. unfold mem14. now apply inv_step.
+  - reflexivity.
+Qed.
+
 Lemma corr_immutable c : c_mech c = MImmutable -> model_agrees_imm c = true ->
   clause_tags c && deletes_denied (c_ops c) (c_obs c) && clause_keep c
   && traced_all (fun o => negb (is_delete_op o)) c && clause_faithful c
-  && forallb (push_digest_ok (hash14 (c_orc c))) (combine (c_ops c) (c_obs c)) = true.
+  && forallb (push_digest_ok (hash14 (c_orc c))) (combine (c_ops c) (c_obs c))
+  && clause_reads c = true.
 Proof.
   intros Hm H. apply model_agrees_imm_facts in H. cbn zeta in H.
   destruct H as (Hwf & Hreads & Hbefore & Hsch & Hth & Hobs & Htrace & Hafter).
@@ -2077,6 +2141,11 @@ Proof.
     fold ist. rewrite Hrf. cbn [fst snd].
     rewrite (dstep_reads o imm (probe_ops c) s2 Hreads). cbn [snd].
     apply agrees_all_app'; [exact Hbefore|]. apply agrees_all_app'; assumption. }
+  apply andb_true_iff. split.
+  2: { unfold clause_reads, history_events. rewrite Hm, Hth. cbn [concat app]. rewrite app_nil_r.
+       apply (faithful_run_gen o imm (forget ist) fst) with (s := (s1, 0%N)); [| |exact HI1|exact Hobs'].
+       - intros s op HI. apply (good_w_step o imm sch s op HI).
+       - intros s op Hr. apply (wstep_read_snd o imm sch s op Hr). }
   apply andb_true_iff. split; [|eapply push_digest_sound; eauto].
   apply andb_true_iff. split; [apply andb_true_iff; split; [apply andb_true_iff; split; [apply andb_true_iff; split|]|]|].
   5: { unfold clause_faithful. apply andb_true_iff. split.
@@ -2274,7 +2343,7 @@ Section Closed.
 End Closed.
 
 Lemma corr_immtags c : c_mech c = MImmTags -> model_agrees_seq c = true ->
-  clause_tags c && clause_keep c && clause_closed c && clause_faithful c = true.
+  clause_tags c && clause_keep c && clause_closed c && clause_faithful c && clause_reads c = true.
 Proof.
   intros Hm H. apply model_agrees_facts in H. cbn zeta in H.
   destruct H as (Hwf & Hreads & Hsetup & Hbefore & Hobs & _ & _ & M & Hil & HM & Hafter).
@@ -2299,6 +2368,18 @@ Proof.
     rewrite !run_snd_app. fold s1.
     rewrite (run_reads_state o true (probe_ops c) s1 Hreads). fold s2. fold s3.
     repeat (apply agrees_all_app'; [assumption|]). assumption. }
+  apply andb_true_iff. split.
+  2: { (* the reads of the setup, of the history and of every goroutine *)
+    unfold clause_reads, history_events. rewrite Hm. rewrite !forallb_app.
+    apply andb_true_iff. split; [|apply andb_true_iff; split].
+    - apply (faithful_run o true (c_setup c) init); [apply inv_init | exact Hsetup].
+    - apply (faithful_run o true (c_ops c) s1); [exact HI1 | exact Hobs].
+    - assert (HMf : forallb (faithful o) M = true).
+      { rewrite <- (combine_fst_snd M). apply (faithful_run o true (map fst M) s2); [|exact HM].
+        unfold s2, s1. rewrite <- final_app. apply inv_reach. }
+      rewrite forallb_forall in HMf. apply forallb_forall. intros x Hx.
+      apply in_concat in Hx as [th [Hth Hx]]. apply HMf.
+      destruct (In_nth _ _ [] Hth) as [j [_ Hj]]. apply (interleave_In _ _ Hil j). now rewrite Hj. }
   apply andb_true_iff. split; [apply andb_true_iff; split; [apply andb_true_iff; split|]|].
   4: { unfold clause_faithful. apply andb_true_iff. split.
        - apply (faithful_sound o true s1); assumption.
